@@ -283,6 +283,12 @@ func genScenario(r *rng.R) (*Scenario, []string) {
 		sc.CntOut = k
 		sc.CntIn = r.Intn(4)
 		tags = append(tags, "prepopulated-store")
+	} else if r.Chance(1, 5) {
+		// a resumed session: the numbering goes on from where an earlier run stopped, the message
+		// store starts empty (the counter does not count what this store holds)
+		sc.CntOut = r.Range(5, 60)
+		sc.CntIn = r.Intn(6)
+		tags = append(tags, "resumed-counter")
 	}
 	if r.Chance(1, 8) {
 		n := r.Range(1, 3)
@@ -371,6 +377,10 @@ func genScenario(r *rng.R) (*Scenario, []string) {
 				e = b
 			case 2:
 				b, e = r.Range(1, 4), r.Range(1, 40)
+			}
+			if sc.CntOut > 4 && len(sc.Store) == 0 && r.Chance(2, 3) { // around where this session's numbers start
+				b = sc.CntOut + r.Range(0, 3)
+				e = []int{0, b, b + r.Range(0, 3)}[r.Intn(3)]
 			}
 			if r.Chance(1, 12) { // the ends of the integer range
 				ext := []int{-9223372036854775807, -4611686018427387904, 9223372036854775807, 4611686018427387904, -2147483648, 2147483647}
